@@ -35,6 +35,9 @@ func checkC10(P *Prog, r *Result) {
 	// a test's IssuePath option reaches the test that is stored: the options are applied to the call-local Test
 	// before it is copied into the schema (C17's option-locality rule)
 	shareRule(P, r, checkC17, "C17/option-locality", nil, "C10/issuepath-option-effective", 15)
+	// an issue object appears once in the map: an issue released to the pool twice is handed to two later
+	// failures, and the map then holds one object under two keys, with the Path of only one of them (C07's rule)
+	shareRule(P, r, checkC07, "C07/release-multiplicity", nil, "C10/issue-object-unique", 1)
 	_ = R
 }
 
